@@ -19,7 +19,9 @@ const key = "goframe/middleware.go:SentinelMiddleware.func1"
 
 func main() {
 	probe.Init()
-	for i, cs := range probe.Plan() {
+	i := 0
+	for cs, more := probe.Next(); more; cs, more = probe.Next() {
+		i++
 		custom, sc := cs.Custom, cs.Sc
 		probe.SetCase(cs)
 		// default resource name: METHOD:path
